@@ -14,6 +14,14 @@ for d in $dirs; do
   if ! git -C /repo apply "$PWD/$d/patch.diff"; then echo "| $d | $prop | patch does not apply | |" >> seeded/RESULTS.md; continue; fi
   out=$(bin/check $prop --tier quick 2>&1); rc=$?
   line=$(echo "$out" | grep -m1 "^VIOLATION" | cut -c1-160)
+  if [ $rc -eq 0 ]; then
+    # a change may break a clause that another property's check owns: meta.json "also" names those checks
+    for other in $(python3 -c "import json;print(' '.join(json.load(open('$d/meta.json')).get('also',[])))"); do
+      out=$(bin/check $other --tier quick 2>&1); rc=$?
+      line=$(echo "$out" | grep -m1 "^VIOLATION" | cut -c1-160)
+      [ $rc -ne 0 ] && { prop="$prop (reported by $other)"; break; }
+    done
+  fi
   git -C /repo checkout -- . ; git -C /repo clean -fdq
   what=$(python3 - <<PY
 import json,glob,re
